@@ -14,6 +14,7 @@ type GenConfig struct {
 	MinSteps   int
 	MaxSteps   int
 	Inflight   bool // allow Sb/Se (edits while a sync is in flight)
+	SnapJobs   bool // allow Sh (another client pushes while the snapshot job of a push is held at its start)
 	PushOnly   bool // allow Sp
 	Retry      bool // allow Sr (lost response + retry)
 	Detach     bool // allow D / re-A
@@ -206,7 +207,10 @@ func Generate(r *rng.R, g GenConfig) *History {
 		if lazy[c] == 1 {
 			wSync = 1
 		}
-		w := []int{10, wSync, 0, 0, 0, 0, 0, 0, 0, 0, 0, 0}
+		w := []int{10, wSync, 0, 0, 0, 0, 0, 0, 0, 0, 0, 0, 0}
+		if g.SnapJobs {
+			w[12] = 1
+		}
 		if g.Compact {
 			w[11] = 2
 		}
@@ -275,6 +279,8 @@ func Generate(r *rng.R, g GenConfig) *History {
 			} else {
 				h.Steps = append(h.Steps, Step{Op: "A", C: c})
 			}
+		case 12:
+			h.Steps = append(h.Steps, Step{Op: "Sh", C: c, Edits: []Edit{genEdit(r, g.Flavor)}})
 		case 11:
 			switch r.Pick(2, 2, 2) {
 			case 0:
